@@ -113,6 +113,12 @@ func ArrayToAppendAction() RewriteAction {
 			return []ast.Option{option}
 		}
 
+		// only the first assignment is rewritten: the option is left unchanged
+		// if it has none, or if another one relies on the (list) argument too.
+		if len(option.Assignments) == 0 || argumentUsedBy(option.Assignments[1:], option.Args[0].Name) {
+			return []ast.Option{option}
+		}
+
 		// Update the argument type from list to a single value
 		oldArgs := option.Args
 
@@ -147,6 +153,44 @@ func ArrayToAppendAction() RewriteAction {
 	}
 }
 
+// argumentUsedBy tells if one of the assignments relies on the given argument
+// (as value, in an envelope, as index or in a constraint).
+func argumentUsedBy(assignments []ast.Assignment, argName string) bool {
+	var usedByValue func(value ast.AssignmentValue) bool
+	usedByValue = func(value ast.AssignmentValue) bool {
+		if value.Argument != nil && value.Argument.Name == argName {
+			return true
+		}
+		if value.Envelope != nil {
+			for _, envelopeValue := range value.Envelope.Values {
+				if usedByValue(envelopeValue.Value) {
+					return true
+				}
+			}
+		}
+
+		return false
+	}
+
+	for _, assignment := range assignments {
+		if usedByValue(assignment.Value) {
+			return true
+		}
+		for _, item := range assignment.Path {
+			if item.Index != nil && item.Index.Argument != nil && item.Index.Argument.Name == argName {
+				return true
+			}
+		}
+		for _, constraint := range assignment.Constraints {
+			if constraint.Argument.Name == argName {
+				return true
+			}
+		}
+	}
+
+	return false
+}
+
 // MapToIndexAction updates the option to perform an "index" assignment.
 //
 // Example:
@@ -171,6 +215,12 @@ func ArrayToAppendAction() RewriteAction {
 func MapToIndexAction() RewriteAction {
 	return func(_ ast.Schemas, _ ast.Builder, option ast.Option) []ast.Option {
 		if len(option.Args) != 1 || !option.Args[0].Type.IsMap() {
+			return []ast.Option{option}
+		}
+
+		// only the first assignment is rewritten: the option is left unchanged
+		// if it has none, or if another one relies on the (map) argument too.
+		if len(option.Assignments) == 0 || argumentUsedBy(option.Assignments[1:], option.Args[0].Name) {
 			return []ast.Option{option}
 		}
 
